@@ -2,10 +2,15 @@
 (`harness.adapters.wl_types.<Name>`).  Import only after common.import_desper() put the repository on sys.path.
 
 Every instance records its constructor arguments; handler classes append (instance, callback, args, kwargs)
-to LOG.  The class names are the `type` strings of spec/WorldLoad.tla (Decl / Prio there mirror this file)."""
+to LOG.  The class names are the `type` strings of spec/WorldLoad.tla (Decl / Prio there mirror this file).
+
+Whether two components / processors / resources compare equal is nothing the statement (or the model) depends on:
+in the behaviours for which the adapter sets EQUAL[0] they are value objects of the bluntest sort - every recording
+instance equals every other one and they all hash alike (as the World adapter does every third behaviour)."""
 import desper
 
 LOG = []
+EQUAL = [False]         # set per behaviour by the adapter (worldload.py: load / reset / finish)
 
 OBJ = object()          # target of "${harness.adapters.wl_types.OBJ}"
 
@@ -22,6 +27,12 @@ class Rec:
         self.wl_args = args
         self.wl_kwargs = kwargs
         CREATED.append(self)
+
+    def __eq__(self, other):
+        return self is other or (EQUAL[0] and isinstance(other, Rec))
+
+    def __hash__(self):
+        return 1 if EQUAL[0] else object.__hash__(self)
 
 
 def _log(cb):
